@@ -132,6 +132,37 @@ def _inspects_kind(ctx, g, seen=None, depth=0):
                 r = _inspects_kind(ctx, ed.dst, seen, depth + 1)
                 if r:
                     return r
+    # a function nested in a builder that assembles a dispatcher and calls it
+    # with its own arguments: the node and filter functions of that
+    # dispatcher see those arguments
+    if g.parent is not None and any(
+            isinstance(n, ast.Call) and any(ef.sources(g, a, der)
+                                            for a in n.args)
+            for n in own_nodes(g)):
+        par = g.parent
+        for n in own_nodes(par):
+            if not (isinstance(n, ast.Call) and isinstance(
+                    n.func, ast.Attribute) and n.func.attr in (
+                    'add_function', 'add_data')):
+                continue
+            cands = []
+            for k in n.keywords:
+                if k.arg == 'function':
+                    cands.append(k.value)
+                elif k.arg == 'filters' and isinstance(
+                        k.value, (ast.List, ast.Tuple)):
+                    cands += list(k.value.elts)
+            if n.func.attr == 'add_function' and len(n.args) > 1:
+                cands.append(n.args[1])
+            for c in cands:
+                if isinstance(c, ast.Call) and c.args:   # partial(f, ...)
+                    c = c.args[0]
+                r_ = ctx.cg.resolve_name_expr(par, c) if isinstance(
+                    c, (ast.Name, ast.Attribute)) else None
+                if r_ and r_[0] in ('func', 'nested'):
+                    r = _inspects_kind(ctx, r_[1], seen, depth + 1)
+                    if r:
+                        return r
     return None
 
 
@@ -618,11 +649,17 @@ def rule_cachekey(ctx, prop, rule, modules):
             from ..util import assign_pairs as _ap
             gets = {}
             for t, v, _st in _ap(f):
-                if isinstance(t, ast.Name) and isinstance(v, ast.Call) and \
-                        isinstance(v.func, ast.Attribute) and \
-                        v.func.attr == 'get' and len(v.args) == 1 and \
-                        isinstance(v.func.value, (ast.Name, ast.Attribute)):
-                    gets[t.id] = (v.func.value, v.args[0])
+                # `x = D.get(K)`, also as one arm of a conditional expression
+                # (`x = None if D is None else D.get(K)`)
+                arms = [v]
+                if isinstance(v, ast.IfExp):
+                    arms = [v.body, v.orelse]
+                for v in arms:
+                    if isinstance(t, ast.Name) and isinstance(v, ast.Call) and \
+                            isinstance(v.func, ast.Attribute) and \
+                            v.func.attr == 'get' and len(v.args) == 1 and \
+                            isinstance(v.func.value, (ast.Name, ast.Attribute)):
+                        gets[t.id] = (v.func.value, v.args[0])
             for n in own_nodes(f):
                 if not (isinstance(n, ast.If) and isinstance(
                         n.test, ast.Compare) and len(n.test.ops) == 1 and
@@ -644,7 +681,14 @@ def rule_cachekey(ctx, prop, rule, modules):
                     continue
                 rr.instances += 1
                 kn = {x.id for x in ast.walk(K) if isinstance(x, ast.Name)}
-                _judge_key(ctx, rr, f, rel, n, D, K, stores[0].value, kn, loc)
+                V = stores[0].value
+                if isinstance(V, ast.Name):
+                    # the value computed under the test, then stored by name
+                    from ..util import assigned_value
+                    vs = [v for v in assigned_value(f, V.id)
+                          if any(v is y for st in n.body for y in ast.walk(st))]
+                    V = ast.Tuple(elts=vs, ctx=ast.Load()) if vs else V
+                _judge_key(ctx, rr, f, rel, n, D, K, V, kn, loc)
             # if K in D: use D[K]  else: ... D[K] = v
             for n in own_nodes(f):
                 if not (isinstance(n, ast.If) and n.orelse):
